@@ -76,6 +76,7 @@ def chunks(tier, seed):
     out.append(("ids", None, None))
     out.append(("custom", None, None))
     out.append(("multi", None, None))
+    out.append(("dup", None, None))
     return out
 
 
@@ -128,6 +129,8 @@ def run_chunk(chunk, tier, seed):
         gen = _cases_prod(edge, pt)
     elif typ == "ids":
         gen = _cases_ids()
+    elif typ == "dup":
+        gen = _cases_dup()
     elif typ == "custom":
         gen = _cases_custom()
     else:
@@ -168,7 +171,12 @@ def _build(case):
     """Returns (edges, vertices, named_vertices) for a product case."""
     pt = case["ptypes"]
     ids = case.get("ids") or list(range(10, 10 + len(pt)))
-    verts = [I.Vertex(ids[k], I.mk_pose(pt[k], _VAL[pt[k]])) for k in range(len(pt))]
+    byid = {}
+    verts = []
+    for k in range(len(pt)):
+        if ids[k] not in byid:
+            byid[ids[k]] = I.Vertex(ids[k], I.mk_pose(pt[k], _VAL[pt[k]]))
+        verts.append(byid[ids[k]])
     named_ids = list(ids)
     if case["absent"]:
         named_ids[-1] = 424242
@@ -183,7 +191,10 @@ def _build(case):
         # the edge object arrives already bound to OTHER vertex objects (same ids, e.g. it was used in an earlier graph):
         # construction must re-bind it to the vertices of THIS graph
         e.vertices = [I.Vertex(i, I.mk_pose(pt[k], _VAL[pt[k]])) for k, i in enumerate(named_ids)]
-    vl = list(verts)
+    vl = []
+    for v in verts:
+        if not any(v is w for w in vl):
+            vl.append(v)
     if case["order"] == "reversed":
         vl = vl[::-1]
     elif case["order"] == "distractor":
@@ -205,6 +216,14 @@ def _eval(case):
         accepted = False
     want = expected_valid(case)
     judged = not (case["edge"] == "landmark" and case["offset"] == "None")
+    if not judged and accepted:
+        # the signature allows offset=None but gives it no meaning: accepting such an edge is only acceptable if it is usable
+        try:
+            c2 = float(g.calc_chi2())
+            if c2 != c2:
+                msgs.append("landmark edge with offset=None accepted but its chi2 is NaN")
+        except Exception as ex:
+            msgs.append("landmark edge with offset=None over %s ACCEPTED by Graph() but unusable: calc_chi2 raises %s" % (case["ptypes"], type(ex).__name__))
     if judged and accepted != want:
         msgs.append(
             "%s edge over %s, measurement %s, offset %s, information %s, id absent=%s, order=%s: %s but the documentation makes it %s"
@@ -231,6 +250,20 @@ def _eval(case):
 
 
 # ------------------------------------------------------------------ thorough extras
+def _cases_dup():
+    """edges whose id list repeats an id: three ids with a repetition is still three vertices (inconsistent)."""
+    for edge, pt3, meas, off, sh in (
+        ("odometry", ["SE2", "SE2", "SE2"], "SE2", None, [3, 3]),
+        ("odometry", ["R2", "R2", "R2"], "R2", None, [2, 2]),
+        ("odometry", ["SE3", "SE3", "SE3"], "SE3", None, [6, 6]),
+        ("landmark", ["SE2", "R2", "SE2"], "R2", "SE2", [2, 2]),
+        ("landmark", ["SE3", "R3", "R3"], "R3", "SE3", [3, 3]),
+    ):
+        for pat in ([0, 1, 0], [0, 1, 1], [0, 0, 1]):
+            for order in ORDERS:
+                yield {"t": "prod", "edge": edge, "ptypes": [pt3[k] for k in pat], "meas": meas, "offset": off, "shape": sh, "absent": False, "order": order, "ids": [10 + k for k in pat], "dup": True}
+
+
 def _cases_ids():
     pools = [[0, 1], [1, 0], [-5, 7], [1000, -5], [2**40, 2**63 - 1], [2**63 - 1, -(2**63)], [7, 7000000000000]]
     for edge, pt, meas, off, sh in (
